@@ -170,6 +170,178 @@ func PoolOwnership(r *core.Run, rels []string) {
 	}
 }
 
+// PoolAlias (R-LOCK/poolalias): what a function returns must not be memory of an
+// object the same function puts back into a sync.Pool: the next Get hands the
+// object to someone who overwrites it while the first caller still reads its
+// result. Aliases of the pooled variable are followed through locals (plain
+// copies, composite literals and &literals that store it in a field); a result
+// aliases it when it contains a (*bytes.Buffer).Bytes / Next call or a slice
+// expression rooted at an alias that is not wrapped in a copy (append to another
+// slice, bytes.Clone, slices.Clone, a string conversion).
+func PoolAlias(r *core.Run, rels []string) {
+	r.Rule("R-LOCK/poolalias", "for every function in scope that puts an object back into a sync.Pool (directly or by defer): no returned expression aliases that object's memory — a Bytes()/Next() of a buffer that is the object or is stored in a local built around it, or a slice of it — unless the expression copies it")
+	for _, rel := range rels {
+		pk := r.P.Pkg(rel)
+		if pk == nil {
+			r.Fatal("anchor: package %s not found", rel)
+			continue
+		}
+		info := pk.TypesInfo
+		core.AllFuncDecls(pk, func(fd *ast.FuncDecl) {
+			if fd.Body == nil {
+				return
+			}
+			// pooled objects released here
+			rel0 := map[types.Object]*ast.CallExpr{}
+			ast.Inspect(fd.Body, func(n ast.Node) bool {
+				if c, ok := n.(*ast.CallExpr); ok && core.CalleeName(info, c) == "(*sync.Pool).Put" && len(c.Args) == 1 {
+					if id, ok := core.Unparen(c.Args[0]).(*ast.Ident); ok {
+						if o := info.ObjectOf(id); o != nil {
+							rel0[o] = c
+						}
+					}
+				}
+				return true
+			})
+			for obj, put := range rel0 {
+				alias := map[types.Object]bool{obj: true}
+				mentions := func(e ast.Expr) bool {
+					hit := false
+					ast.Inspect(e, func(n ast.Node) bool {
+						if id, ok := n.(*ast.Ident); ok && alias[info.ObjectOf(id)] {
+							hit = true
+						}
+						return !hit
+					})
+					return hit
+				}
+				carries := func(e ast.Expr) bool {
+					// a value that keeps a reference: the alias itself, &alias-literal, a literal with an alias field
+					switch x := core.Unparen(e).(type) {
+					case *ast.Ident:
+						return alias[info.ObjectOf(x)]
+					case *ast.UnaryExpr:
+						if cl, ok := core.Unparen(x.X).(*ast.CompositeLit); ok {
+							return mentions(cl)
+						}
+						return mentions(x.X)
+					case *ast.CompositeLit:
+						return mentions(x)
+					case *ast.SelectorExpr:
+						return mentions(x)
+					}
+					return false
+				}
+				for changed := true; changed; {
+					changed = false
+					ast.Inspect(fd.Body, func(n ast.Node) bool {
+						as, ok := n.(*ast.AssignStmt)
+						if !ok || len(as.Lhs) != len(as.Rhs) {
+							return true
+						}
+						for i, l := range as.Lhs {
+							id, ok := core.Unparen(l).(*ast.Ident)
+							if !ok {
+								continue
+							}
+							o := info.ObjectOf(id)
+							if o == nil || alias[o] {
+								continue
+							}
+							if carries(as.Rhs[i]) {
+								alias[o] = true
+								changed = true
+							}
+						}
+						return true
+					})
+				}
+				ob := r.Add("R-LOCK/poolalias", fmt.Sprintf("%s.%s | results vs pooled ‹%s›", rel, core.FuncName(fd), core.TypeStr(obj.Type())), put.Pos(), "results of a function that releases a pooled object")
+				var bad ast.Expr
+				var aliasing func(e ast.Expr) bool
+				aliasing = func(e ast.Expr) bool {
+					switch x := core.Unparen(e).(type) {
+					case *ast.CallExpr:
+						name := core.CalleeName(info, x)
+						switch name {
+						case "(*bytes.Buffer).Bytes", "(*bytes.Buffer).Next", "(*bytes.Buffer).AvailableBuffer":
+							if sel, ok := x.Fun.(*ast.SelectorExpr); ok && mentions(sel.X) {
+								return true
+							}
+							return false
+						case "bytes.Clone", "slices.Clone", "(*bytes.Buffer).String", "(*strings.Builder).String":
+							return false
+						case "append":
+							// append(dst, src...) copies src; the result aliases dst
+							if len(x.Args) > 0 {
+								return aliasing(x.Args[0])
+							}
+							return false
+						}
+						if core.IsConversion(info, x) && len(x.Args) == 1 {
+							if b, ok := info.TypeOf(x).Underlying().(*types.Basic); ok && b.Info()&types.IsString != 0 {
+								return false
+							}
+							return aliasing(x.Args[0])
+						}
+						return false
+					case *ast.SliceExpr:
+						if _, isStr := info.TypeOf(x.X).Underlying().(*types.Basic); isStr {
+							return false
+						}
+						return mentions(x.X) || aliasing(x.X)
+					case *ast.Ident:
+						// a local holding an aliasing value
+						o := info.ObjectOf(x)
+						if o == nil {
+							return false
+						}
+						if _, isSlice := o.Type().Underlying().(*types.Slice); !isSlice {
+							return false
+						}
+						res := false
+						ast.Inspect(fd.Body, func(n ast.Node) bool {
+							if as, ok := n.(*ast.AssignStmt); ok && len(as.Lhs) == len(as.Rhs) {
+								for i, l := range as.Lhs {
+									if id, ok := core.Unparen(l).(*ast.Ident); ok && info.ObjectOf(id) == o && as.Rhs[i] != e {
+										if id2, ok := core.Unparen(as.Rhs[i]).(*ast.Ident); ok && info.ObjectOf(id2) == o {
+											continue
+										}
+										if aliasing(as.Rhs[i]) {
+											res = true
+										}
+									}
+								}
+							}
+							return !res
+						})
+						return res
+					}
+					return false
+				}
+				ast.Inspect(fd.Body, func(n ast.Node) bool {
+					if _, ok := n.(*ast.FuncLit); ok {
+						return false
+					}
+					if rs, ok := n.(*ast.ReturnStmt); ok && bad == nil {
+						for _, e := range rs.Results {
+							if aliasing(e) {
+								bad = e
+							}
+						}
+					}
+					return true
+				})
+				if bad != nil {
+					ob.Fail("the function returns %s, memory of the object it puts back into the pool (%s): the next Get reuses it while the caller still holds the result — an earlier output is overwritten by a later encode", core.NormExpr(info, bad), r.P.Fset.Position(bad.Pos()).String()[strings.LastIndex(r.P.Fset.Position(bad.Pos()).String(), "/")+1:])
+				} else {
+					ob.Auto("no result aliases the pooled object")
+				}
+			}
+		})
+	}
+}
+
 // returnsOnFailure: the call is the initialiser of an `if` whose body ends in a return, or is
 // directly followed by `if err != nil { …; return }`.
 func returnsOnFailure(fd *ast.FuncDecl, c *ast.CallExpr) bool {
